@@ -3,8 +3,12 @@
 Read with `ast` only, nothing is evaluated:
   * per processor class (LinearSpinChain, CircularSpinChain, SCQubits, DispersiveCavityQED): the list literal assigned to
     `self.native_gates` in the nearest `__init__` of its base-class chain, and what the nearest `topology_map` does
-    (`raise NotImplementedError` / `return to_chain_structure(qc[, "linear"|"circular"])`, default of `setup` from chain.py);
-  * `ModelProcessor.transpile`: the order of its statements (multi-qubit pre-decomposition, topology map, resolve_gates);
+    (`raise NotImplementedError` / `return to_chain_structure(qc[, "linear"|"circular"])`, default of `setup` from chain.py;
+    optionally preceded by `if qc.N < self.num_qubits: return to_chain_structure(qc, ..)` = the rule for a narrower circuit, and
+    by guard loops `for g in qc.gates: if g.name == ".." and abs(g.targets[0] - g.targets[1]) != 1: raise ValueError` = gates
+    refused unless on neighbours);
+  * `ModelProcessor.transpile`: the order of its statements (width test `if qc.N > self.num_qubits: raise ValueError`,
+    multi-qubit pre-decomposition, topology map, resolve_gates);
   * `ModelProcessor._decompose_multi_qubit_gates` (when transpile calls it): the qubit-count threshold of its test and that
     it decomposes with `resolve_gates(basis=self.native_gates)`.
 Anything of another shape is refused (Broken("translator:devices:<where>")).
@@ -114,40 +118,133 @@ def _chain_default():
     return d.value
 
 
+def _setup_of(where, c, default_setup):
+    """to_chain_structure(qc[, setup]) -> TopoLinear / TopoCircular"""
+    if not (isinstance(c, ast.Call) and isinstance(c.func, ast.Name) and c.func.id == "to_chain_structure"):
+        raise Refuse(f"{where}: not a call of to_chain_structure")
+    setup = default_setup
+    if len(c.args) not in (1, 2) or not (isinstance(c.args[0], ast.Name) and c.args[0].id == "qc"):
+        raise Refuse(f"{where}: arguments")
+    if len(c.args) == 2:
+        if not isinstance(c.args[1], ast.Constant):
+            raise Refuse(f"{where}: setup not a constant")
+        setup = c.args[1].value
+    for kw in c.keywords:
+        if kw.arg == "setup" and isinstance(kw.value, ast.Constant) and len(c.args) == 1:
+            setup = kw.value.value
+        else:
+            raise Refuse(f"{where}: keyword {kw.arg}")
+    if setup == "linear":
+        return "TopoLinear"
+    if setup == "circular":
+        return "TopoCircular"
+    raise Refuse(f"{where}: setup {setup!r}")
+
+
+def _is_qc_N(e):
+    return isinstance(e, ast.Attribute) and e.attr == "N" and isinstance(e.value, ast.Name) and e.value.id == "qc"
+
+
+def _width_cmp(test):
+    """-> "narrow" for `qc.N < self.num_qubits`, "wide" for `qc.N > self.num_qubits` (either operand order), else None"""
+    if not (isinstance(test, ast.Compare) and len(test.ops) == 1):
+        return None
+    a, b, op = test.left, test.comparators[0], test.ops[0]
+    if _is_qc_N(a) and _is_self_attr(b, "num_qubits"):
+        return "narrow" if isinstance(op, ast.Lt) else "wide" if isinstance(op, ast.Gt) else None
+    if _is_self_attr(a, "num_qubits") and _is_qc_N(b):
+        return "narrow" if isinstance(op, ast.Gt) else "wide" if isinstance(op, ast.Lt) else None
+    return None
+
+
+def _is_raise_value_error(s):
+    return (isinstance(s, ast.Raise) and s.cause is None
+            and ((isinstance(s.exc, ast.Call) and isinstance(s.exc.func, ast.Name) and s.exc.func.id == "ValueError")
+                 or (isinstance(s.exc, ast.Name) and s.exc.id == "ValueError")))
+
+
+def _guard_loop(where, loop):
+    """for G in qc.gates: if G.name == "X" [and/nested if] abs(G.targets[0] - G.targets[1]) != 1: raise ValueError(...)
+    -> the gate names refused when their two targets are not neighbours"""
+    it = loop.iter
+    if loop.orelse or not isinstance(loop.target, ast.Name) or not (
+            isinstance(it, ast.Attribute) and it.attr == "gates" and isinstance(it.value, ast.Name) and it.value.id == "qc"):
+        raise Refuse(f"{where}: loop is not `for <name> in qc.gates`")
+    g = loop.target.id
+
+    def is_g_attr(e, attr):
+        return isinstance(e, ast.Attribute) and e.attr == attr and isinstance(e.value, ast.Name) and e.value.id == g
+
+    def tgt(e, k):
+        return (isinstance(e, ast.Subscript) and is_g_attr(e.value, "targets") and isinstance(e.slice, ast.Constant)
+                and e.slice.value == k)
+
+    def atoms(test):
+        if isinstance(test, ast.BoolOp) and isinstance(test.op, ast.And):
+            return [a for v in test.values for a in atoms(v)]
+        return [test]
+
+    def classify(a):
+        if isinstance(a, ast.Compare) and len(a.ops) == 1:
+            l, r, op = a.left, a.comparators[0], a.ops[0]
+            if is_g_attr(l, "name") and isinstance(op, ast.Eq) and isinstance(r, ast.Constant) and isinstance(r.value, str):
+                return ("names", [r.value])
+            if is_g_attr(l, "name") and isinstance(op, ast.In) and isinstance(r, (ast.List, ast.Tuple)) \
+                    and all(isinstance(x, ast.Constant) and isinstance(x.value, str) for x in r.elts):
+                return ("names", [x.value for x in r.elts])
+            if isinstance(op, ast.NotEq) and isinstance(r, ast.Constant) and r.value == 1 and isinstance(l, ast.Call) \
+                    and isinstance(l.func, ast.Name) and l.func.id == "abs" and len(l.args) == 1 and not l.keywords \
+                    and isinstance(l.args[0], ast.BinOp) and isinstance(l.args[0].op, ast.Sub) \
+                    and ((tgt(l.args[0].left, 0) and tgt(l.args[0].right, 1)) or (tgt(l.args[0].left, 1) and tgt(l.args[0].right, 0))):
+                return ("far", None)
+        raise Refuse(f"{where} l.{getattr(a, 'lineno', '?')}: unknown condition in the guard loop")
+
+    conds = []
+    body = loop.body
+    while True:
+        if len(body) != 1:
+            raise Refuse(f"{where}: guard loop body has {len(body)} statements")
+        st = body[0]
+        if isinstance(st, ast.If) and not st.orelse:
+            conds += [classify(a) for a in atoms(st.test)]
+            body = st.body
+            continue
+        if _is_raise_value_error(st):
+            break
+        raise Refuse(f"{where}: guard loop does not end in `raise ValueError`")
+    names = [c[1] for c in conds if c[0] == "names"]
+    if len(names) != 1 or sum(1 for c in conds if c[0] == "far") != 1:
+        raise Refuse(f"{where}: guard loop needs exactly one name test and one distance test")
+    return names[0]
+
+
 def _topo_of(chain, default_setup):
+    """-> (topology used for a circuit as wide as the processor, topology for a narrower circuit or None,
+           names of the two-target gates refused when their targets are not neighbours)"""
     for cls in chain:
         m = _method(cls, "topology_map")
         if m is None:
             continue
+        where = f"{cls.name}.topology_map"
         if [x.arg for x in m.args.args] != ["self", "qc"]:
-            raise Refuse(f"{cls.name}.topology_map: signature")
+            raise Refuse(f"{where}: signature")
         body = _strip_doc(m.body)
+        unrouted, narrow = [], None
+        while body and isinstance(body[0], ast.For):                 # refusals come first
+            unrouted += _guard_loop(where, body[0])
+            body = body[1:]
+        if len(body) == 2 and isinstance(body[0], ast.If) and not body[0].orelse and _width_cmp(body[0].test) == "narrow" \
+                and len(body[0].body) == 1 and isinstance(body[0].body[0], ast.Return):
+            narrow = _setup_of(where, body[0].body[0].value, default_setup)
+            body = body[1:]
         if len(body) != 1:
-            raise Refuse(f"{cls.name}.topology_map: {len(body)} statements")
+            raise Refuse(f"{where}: unknown shape ({len(body)} trailing statements)")
         s = body[0]
-        if isinstance(s, ast.Raise) and isinstance(s.exc, ast.Name) and s.exc.id == "NotImplementedError":
-            return "TopoNone"
-        if isinstance(s, ast.Return) and isinstance(s.value, ast.Call) and isinstance(s.value.func, ast.Name) \
-                and s.value.func.id == "to_chain_structure":
-            c = s.value
-            setup = default_setup
-            if len(c.args) not in (1, 2) or not (isinstance(c.args[0], ast.Name) and c.args[0].id == "qc"):
-                raise Refuse(f"{cls.name}.topology_map: arguments")
-            if len(c.args) == 2:
-                if not isinstance(c.args[1], ast.Constant):
-                    raise Refuse(f"{cls.name}.topology_map: setup not a constant")
-                setup = c.args[1].value
-            for kw in c.keywords:
-                if kw.arg == "setup" and isinstance(kw.value, ast.Constant) and len(c.args) == 1:
-                    setup = kw.value.value
-                else:
-                    raise Refuse(f"{cls.name}.topology_map: keyword {kw.arg}")
-            if setup == "linear":
-                return "TopoLinear"
-            if setup == "circular":
-                return "TopoCircular"
-            raise Refuse(f"{cls.name}.topology_map: setup {setup!r}")
-        raise Refuse(f"{cls.name}.topology_map: unknown body")
+        if isinstance(s, ast.Raise) and isinstance(s.exc, ast.Name) and s.exc.id == "NotImplementedError" and not unrouted and narrow is None:
+            return "TopoNone", None, []
+        if isinstance(s, ast.Return):
+            return _setup_of(where, s.value, default_setup), narrow, unrouted
+        raise Refuse(f"{where}: unknown body")
     raise Refuse("no topology_map in the class chain")
 
 
@@ -177,6 +274,10 @@ def _passes(mp):
     out = []
     helper = None
     for s in body[:-1]:
+        if isinstance(s, ast.If) and not s.orelse and _width_cmp(s.test) == "wide" and len(s.body) == 1 \
+                and _is_raise_value_error(s.body[0]):
+            out.append("PWidth")
+            continue
         if isinstance(s, ast.Try):
             if (len(s.body) == 1 and _is_qc_assign(s.body[0], lambda v: _call_self(v, "topology_map"))
                     and len(s.handlers) == 1 and isinstance(s.handlers[0].type, ast.Name)
@@ -497,7 +598,7 @@ def generate():
             for cls in ch[:-1]:
                 if _method(cls, "transpile") is not None:
                     raise Refuse(f"{cls.name} overrides transpile")
-            devs.append((name, _native_of(ch), _topo_of(ch, default_setup)))
+            devs.append((name, _native_of(ch)) + _topo_of(ch, default_setup))
         passes, helper = _passes(mp)
         thr = _helper_threshold(mp, helper) if helper is not None else 2
     except Refuse as e:
@@ -505,14 +606,16 @@ def generate():
     out = ["(* GENERATED by tools/translate/devices_tr.py from device/{modelprocessor,spinchain,circuitqed,cavityqed}.py and "
            "transpiler/chain.py - do not edit *)",
            "From Coq Require Import List String.", "From QV Require Import Model.TranspileTypes.", "Import ListNotations.", "Local Open Scope string_scope.", ""]
-    for name, nat, topo in devs:
+    for name, nat, topo, narrow, unrouted in devs:
         ns = "None" if nat is None else "Some [" + "; ".join(cstr(x) for x in nat) + "]"
-        out.append(f"Definition dev_{name} : device := mkDev {cstr(name)} ({ns}) {topo}.")
-    out.append("Definition devices : list device := [" + "; ".join(f"dev_{n}" for n, _, _ in devs) + "].")
+        nw = "None" if narrow is None else f"(Some {narrow})"
+        ur = "[" + "; ".join(cstr(x) for x in unrouted) + "]"
+        out.append(f"Definition dev_{name} : device := mkDev {cstr(name)} ({ns}) {topo} {nw} {ur}.")
+    out.append("Definition devices : list device := [" + "; ".join(f"dev_{d[0]}" for d in devs) + "].")
     out.append("Definition transpile_passes : list pass := [" + "; ".join(passes) + "].")
     out.append(f"Definition expand_threshold : nat := {int(thr)}.")
     write_if_changed(os.path.join(COQ, "Gen", "Devices.v"), "\n".join(out) + "\n")
-    return dict(devices={n: dict(native=nat, topo=t) for n, nat, t in devs}, passes=passes, helper=helper, threshold=thr,
+    return dict(devices={n: dict(native=nat, topo=t, narrow=nw, unrouted=ur) for n, nat, t, nw, ur in devs}, passes=passes, helper=helper, threshold=thr,
                 default_setup=default_setup)
 
 
